@@ -398,3 +398,11 @@ def run(ctx):
     ctx.run_clause("C14.d", lambda c: c14d(c, prog))
     ctx.run_clause("C14.e", lambda c: c14e(c, prog))
     ctx.run_clause("C14.f", lambda c: c14f(c, prog))
+    # "stores are addressed by the id": the id picks a column family / keyspace together with the column's KIND; every site of
+    # one family has to ask for the same kind, else one id names two stores (C11.d's rule, both backends), evaluated as C14.g
+    if not ctx.key_prefix:
+        from . import C11
+        ctx.alias = {"C11.d": "C14.g"}
+        ctx.run_clause("C14.g", lambda c: C11.column_kind_agreement(c, prog, "fjall", "fjall"))
+        ctx.run_clause("C14.g", lambda c: C11.column_kind_agreement(c, c.program("rocks"), "rocksdb", "rocksdb"))
+        ctx.alias = {}
